@@ -99,6 +99,9 @@ func (m *Monitor) obsMetaCall(s *step) {
 	me := m.Sess[op.P]
 	args := m.resolveVal(op.P, op.Args).([]any)
 	kw := op.Kw
+	if kw != nil {
+		kw = m.resolveVal(op.P, op.Kw).(map[string]any)
+	}
 	switch op.URI {
 	case "wamp.session.count", "wamp.session.list":
 		var filter []string
